@@ -109,6 +109,9 @@ func report(c *runner.Ctx, place, desc string, expected []string, actualErr erro
 		kind = "extra-group-clause"
 	}
 	c.Outcome("mismatch")
+	if place == "map-entries-keys-that-print-the-same" {
+		kind = "groups-merged" // one call site: objects told apart only by a path that prints the same
+	}
 	c.Violation(place+"/"+kind, det)
 }
 
@@ -243,6 +246,14 @@ func structCasesV(c *runner.Ctx, k int, kd kindT, firstPrefix string) {
 				e.Field(2).Set(reflect.ValueOf(kd.val((pv + 1) % 3)))
 				e.Field(3).Set(other.Addr())
 				run1("embedded+outer", e.Addr().Interface(), true)
+			}
+			// two entries whose keys print the same (1 and "1" as interface{} keys; two struct keys): two objects, each with
+			// groups of its own - the path names them alike, it does not make them one
+			if diff {
+				ik := reflect.MakeMap(reflect.MapOf(reflect.TypeOf((*interface{})(nil)).Elem(), reflect.PtrTo(st)))
+				ik.SetMapIndex(reflect.ValueOf(1), obj.Addr())
+				ik.SetMapIndex(reflect.ValueOf("1"), other.Addr())
+				run1("map-entries-keys-that-print-the-same", ik.Interface(), true)
 			}
 			// map entries under long keys that agree in their first 40 characters: still one object per entry
 			{
